@@ -247,12 +247,24 @@ class FunctionExtractor:
         self.loop_hooks = []
         # ---- signature
         params = [c for c in d['inner'] if c.get('kind') == 'ParmVarDecl']
+        self.refvars = set()
+        for prm in params:
+            qt = prm.get('type', {}).get('qualType', '')
+            if qt.endswith('&'):
+                # R8: reference parameter -> pointer parameter (same object, C has no references)
+                pb, pe = _off(prm['range']['begin']), _end(prm['range']['end'])
+                amp = self.src.rfind('&', pb, pe)
+                if amp < 0:
+                    raise ExtractionError('reference parameter without & token')
+                self.ed.replace(amp, amp + 1, '*')
+                self.refvars.add(prm.get('id'))
+                self.rules.append('R8')
         if self.is_ctor or self.is_dtor:
             ptxt = [src[_off(p['range']['begin']):_end(p['range']['end'])] for p in params]
             sig = '%s* %s(%s)' % (self.cls, self.fname, ', '.join(['%s* self' % self.cls] + ptxt))
             self.rules.append('R5' if self.is_ctor else 'R5b')
         else:
-            sig = src[fb:bb].rstrip()
+            sig = self.render(fb, bb).rstrip()
             if self.alias:
                 nm = d['name']
                 sig2, n = re.subn(r'\b%s\b' % re.escape(nm), self.alias, sig, count=1)
@@ -393,6 +405,21 @@ class FunctionExtractor:
                 return
         elif n.get('id'):
             self.nonstatic_locals.add(n['id'])
+            qt = n.get('type', {}).get('qualType', '')
+            if qt.endswith('&'):
+                # R8b: local reference  T &x = e;  ->  T *x = &(e);  uses x.m -> x->m
+                b = _off(n['range']['begin']); e = _end(n['range']['end'])
+                nameoff = _off(n['loc'])
+                amp = self.src.rfind('&', b, nameoff)
+                init = [c for c in n.get('inner', []) if c.get('kind')]
+                if amp < 0 or not init:
+                    raise ExtractionError('unsupported reference local')
+                ib = _off(init[-1]['range']['begin'])
+                self.ed.replace(amp, amp + 1, '*')
+                self.ed.insert(ib, '&(')
+                self.ed.insert(e, ')')
+                self.refvars.add(n['id'])
+                self.rules.append('R8b')
         t = n.get('type', {}).get('qualType', '')
         if 'distribution' in t:
             raise ExtractionError('sampler object (R9) not enabled for ' + self.qual)
@@ -463,8 +490,23 @@ class FunctionExtractor:
         self.ed.replace(b, b + 4, 'self')
         self.rules.append('R5')
 
+    def _refbase(self, x):
+        while x.get('kind') in ('ImplicitCastExpr', 'ParenExpr'):
+            x = x['inner'][0]
+        if x.get('kind') == 'DeclRefExpr' and x.get('referencedDecl', {}).get('id') in getattr(self, 'refvars', ()):
+            return x
+        return None
+
     def v_MemberExpr(self, n):
         inner = n.get('inner', [])
+        if inner and not n.get('isArrow') and self._refbase(inner[0]) is not None:
+            be = _end(inner[0]['range']['end'])
+            dot = self.src.find('.', be)
+            if dot < 0 or self.src[be:dot].strip():
+                raise ExtractionError('cannot find . after reference variable')
+            self.ed.replace(dot, dot + 1, '->')
+            self.rules.append('R8b')
+            return
         if inner and inner[0].get('kind') == 'CXXThisExpr' and inner[0].get('implicit'):
             b = _off(n['range']['begin'])
             self.ed.insert(b, 'self->')
@@ -562,6 +604,17 @@ class FunctionExtractor:
                 otxt = '&(%s)' % otxt
             self.ed.replace(b, e, '%s__dtor(%s)' % (cls, otxt))
             self.rules.append('R5b')
+            return
+        if callee.get('kind') == 'MemberExpr' and callee.get('name') in ('fread',) and self._refbase(callee['inner'][0]) is not None:
+            # R8: F.fread(p, n) on the stream parameter -> Istream_fread(F, p, n) (virtual dispatch: one stub contract for both stream classes)
+            obj = self._refbase(callee['inner'][0])
+            oname = obj['referencedDecl']['name']
+            cb = _off(callee['range']['begin']); ce = _end(callee['range']['end'])
+            par = self.src.find('(', ce)
+            self.ed.replace(cb, par + 1, 'Istream_%s(%s, ' % (callee['name'], oname))
+            self.rules.append('R8')
+            for a in n['inner'][1:]:
+                self.walk(a)
             return
         raise ExtractionError('member call not supported: %r' % self.src[b:e])
 
@@ -757,6 +810,15 @@ def extract_cxx_constants():
     if len(out) < 2:
         raise ExtractionError('numeric_functions.h constants not found')
     return '\n'.join(out) + '\n'
+
+
+def extract_uid_constants():
+    """tfhe_generic_streams.h: the binary type tags (file-scope `const int32_t X_TYPE_UID = n;`)"""
+    p = os.path.join(INC, 'tfhe_generic_streams.h')
+    out = [ln for ln in open(p).read().split('\n') if re.match(r'\s*const\s+int32_t\s+\w+_TYPE_UID\s*=\s*\d+\s*;', ln)]
+    if len(out) < 5:
+        raise ExtractionError('type tags not found')
+    return '\n'.join('static ' + ln.strip() for ln in out) + '\n'
 
 
 def extract_many(specs):
